@@ -167,6 +167,12 @@ impl C08 {
     let day_has_jie = ts.list.iter().any(|t| t.index % 2 == 1 && (t.day - jdn).abs() <= (t.ambiguous_day as i64));
     let r = guard(|| {
       let t = SolarTime::from_ymd_hms(y as isize, m as usize, d as usize, (s / 3600) as usize, (s / 60 % 60) as usize, (s % 60) as usize);
+      // on every other case a day-level query about the same civil year (its mid-year day) comes first: the two views must not
+      // influence each other through anything they share
+      if (i as i64 + s) % 2 == 0 {
+        let _ = tyme4rs::tyme::solar::SolarDay::from_ymd(y as isize, 7, 1).get_sixty_cycle_day();
+        let _ = t.get_solar_day().get_sixty_cycle_day().get_year();
+      }
       let h = t.get_sixty_cycle_hour();
       let dv = if day_has_jie { None } else { Some(t.get_solar_day().get_sixty_cycle_day()) };
       (h.get_year().get_index() as i64, h.get_month().get_index() as i64, h.get_sixty_cycle_day().get_sixty_cycle_month().get_sixty_cycle_year().get_year() as i64, dv.map(|x| (x.get_year().get_index() as i64, x.get_month().get_index() as i64)))
@@ -213,6 +219,17 @@ impl C08 {
     }
     if sy.get_sixty_cycle().get_index() as i64 != year_pillar(y) {
       out.fail(env, viol("months", "year_pillar", case, &k, format!("SixtyCycleYear({})", y), pillar_name(year_pillar(y)), sy.get_sixty_cycle().to_string()));
+    }
+    // an index outside 0..11 carries into the neighbouring sexagenary year
+    if (1..=9996).contains(&y) {
+      use tyme4rs::tyme::sixtycycle::SixtyCycleMonth as M;
+      for (idx, ey, ej) in [(12i64, y + 1, 0i64), (13, y + 1, 1), (-1, y - 1, 11), (-12, y - 1, 0), (25, y + 2, 1)] {
+        if let (Ok(a), Ok(b)) = (guard(|| { let m = M::from_index(y as isize, idx as isize); (m.to_string(), m.get_sixty_cycle_year().get_year() as i64, m.get_index_in_year() as i64, m.get_sixty_cycle().get_index() as i64) }), guard(|| { let m = M::from_index(ey as isize, ej as isize); (m.to_string(), m.get_sixty_cycle_year().get_year() as i64, m.get_index_in_year() as i64, m.get_sixty_cycle().get_index() as i64) })) {
+          if a != b || !legal_pair(year_pillar(a.1), a.3) {
+            out.fail(env, viol("months", "from_index_carry", case, &[("sy", y), ("mi", idx)], format!("SixtyCycleMonth::from_index({}, {})", y, idx), format!("{:?} (= from_index({}, {}))", b, ey, ej), format!("{:?}", a)));
+          }
+        }
+      }
     }
     for (j, mo) in ms.iter().enumerate() {
       let ti = 3 + 2 * j as i64;
